@@ -10,6 +10,7 @@ import io
 import json
 import os
 import random
+import shutil
 
 import numpy as np
 import pandas as pd
@@ -266,6 +267,7 @@ def run(chk):
             chk.violation(sig, dict(d, event=e, how='CSV + CSVW metadata written to disk, tdda.serial.reader.csv2pandas; '
                                                     'judged by spec/Trace_Csvw.tla'))
     chk.sample({'load_event': clean[0], 'case': {k: detail[0][k] for k in ('format', 'cells')}})
+    loaddf_cases(chk, rnd, thorough)
     chk.coverage['rule'] = ('every date / date-time pattern composed from d|dd, M|MM, yy|yyyy in 4 orders x 4 separators, optionally '
                             'joined by space or T to HH:mm[:ss[.S|SS|SSS]] (1408 patterns): translation on all, real-instant round trip '
                             'on a sample (all in thorough); dialect matrix delimiter x encoding x header (3 spellings) x titles x '
@@ -274,6 +276,77 @@ def run(chk):
     chk.assume('fields are joined by separators (no two fields adjacent); fractions of 1-3 digits; written values use the intended pattern')
     chk.assume('byte fidelity of values is measured on real files (encode/decode is not modelled); the model supplies the pattern '
                'space, the expected translation and the header/names decision table')
+
+
+def loaddf_cases(chk, rnd, thorough):
+    """LoadDf.tla: which description load_df uses (explicit, associated CSVW file, the description itself, none)."""
+    from harness import loaddf_lib as ll
+    r = tlc.run('MC_LoadDf', 'MC_LoadDf.cfg', name='MC_LoadDf')
+    chk.add_tlc(r)
+    if r.violated:
+        chk.machinery_error('MC_LoadDf violates %s' % r.violated)
+    if thorough:
+        rp = tlc.run('MC_LoadDf', 'MC_LoadDf_pinned.cfg', name='MC_LoadDf_pinned')
+        chk.add_tlc(rp)
+        chk.coverage['pinned_loaddf_model_violates'] = 'ImplIsSpecInv' in rp.violated
+        if 'ImplIsSpecInv' not in rp.violated:
+            chk.machinery_error('vacuity: the pinned LoadDf model should violate ImplIsSpecInv')
+    rows = sorted(r.rows, key=lambda x: json.dumps(x, sort_keys=True))
+    wd = common.subdir('loaddf')
+    # (a) precedence of the candidate files: every subset of the 11 candidates
+    seen = {}
+    for row in rows:
+        key = tuple(sorted(row['siblings']))
+        if key in seen:
+            continue
+        seen[key] = row['found']
+    subsets = sorted(seen) if thorough else rnd.sample(sorted(seen), 300)
+    for key in subsets:
+        got = ll.find_only(os.path.join(wd, 'find'), key, rnd.choice(ll.NAMES))
+        chk.coverage['replayed_cases'] += 1
+        chk.count_case(('find', key), nontrivial=len(key) > 1)
+        if got != seen[key]:
+            if 1 in key or not key:
+                chk.violation({'kind': 'load-df', 'clause': 'AssociatedFileIsFirstCandidate'},
+                              {'candidates_present': [ll.SUFFIXES[i - 1] for i in key], 'observed_index': got, 'expected_index': seen[key],
+                               'how': 'tdda.serial.utils.find_associated_metadata_file on real (empty) files'})
+            else:
+                chk.drift_case({'what': 'precedence among non-CSVW candidates differs from the transcription',
+                                'candidates_present': [ll.SUFFIXES[i - 1] for i in key], 'observed_index': got, 'expected_index': seen[key]})
+    # (b) load_df itself: candidates restricted to the CSVW file and two decoys
+    events, details = [], {}
+    tid = 0
+    for row in rows:
+        if not set(row['siblings']) <= {1, 2, 6}:
+            continue
+        for name in (ll.NAMES if thorough else [ll.NAMES[tid % len(ll.NAMES)]]):
+            e = ll.load_case(os.path.join(wd, 'load'), row, name, dotted_dir=(tid % 3 == 0))
+            e['tid'] = tid
+            events.append(e)
+            details[tid] = {'file_given': e['file'], 'kwargs': e['kwargs'], 'candidates_present': [ll.SUFFIXES[i - 1] for i in e['siblings']],
+                            'observed': e['observed'], 'detail': e['detail'], 'specified': row['spec'], 'demanded': row['dem']}
+            chk.coverage['replayed_cases'] += 1
+            chk.count_case(('load_df', json.dumps(row, sort_keys=True), name), nontrivial=row['dem'] and row['ext'] == 'csv')
+            decoy = row['found'] not in (0, 1) and not row['mdpath'] and not row['ignore']     # an empty JSON decoy is what gets read
+            if e['observed'] != row['impl'] and not decoy and not (row['dem'] and e['observed'] != row['spec']):
+                chk.drift_case({'what': 'load_df differs from the transcription', 'case': details[tid]})
+            tid += 1
+    clean = [{k: v for k, v in e.items() if k not in ('detail', 'file', 'kwargs')} for e in events]
+    res, rejected = trace.validate('Trace_LoadDf', 'Trace_LoadDf.cfg', clean, name='load_df', workers=4)
+    chk.add_tlc(res)
+    chk.coverage['traces_validated_against_impl'] += len(events)
+    chk.coverage['load_df_calls'] = len(events)
+    for rej in rejected:
+        e = events[rej['line'] - 1]
+        for clause in rej['bad']:
+            sig = {'kind': 'load-df', 'clause': clause, 'given': e['given'], 'mdpath': e['mdpath'], 'ignore': e['ignore']}
+            if e['observed'] == 'raises':
+                sig['error'] = e['detail'].split(':')[0]
+            chk.violation(sig, dict(details[e['tid']], how='tdda.constraints.pd.constraints.load_df on real files; judged by '
+                                                               'spec/Trace_LoadDf.tla'))
+    if events:
+        chk.sample({'load_df_event': clean[0]})
+    shutil.rmtree(wd, ignore_errors=True)
 
 
 def replay(path):
